@@ -410,8 +410,9 @@ func validate(path []int, wants []want) error {
 
 type replayFile struct {
 	Replay struct {
-		Cfg  cfg   `json:"cfg"`
-		Path []int `json:"path"`
+		Cfg  cfg    `json:"cfg"`
+		Path []int  `json:"path"`
+		Mode string `json:"mode"`
 	} `json:"replay"`
 }
 
@@ -440,6 +441,20 @@ func main() {
 			fmt.Fprintln(os.Stderr, err)
 			os.Exit(3)
 		}
+		if rf.Replay.Mode == "size-sweep" {
+			a := ev.NewAcc()
+			sizeSweep(a, "quick")
+			for _, v := range a.Violations {
+				fmt.Println(v.Msg)
+			}
+			if len(a.Violations) > 0 {
+				fmt.Printf("VIOLATION property=C12 replay=%s\n", *replay)
+				os.RemoveAll(tmpRoot)
+				os.Exit(1)
+			}
+			fmt.Println("replay: property holds on the size sweep")
+			return
+		}
 		for i := 1; i <= len(rf.Replay.Path); i++ {
 			r := apply(rf.Replay.Cfg, rf.Replay.Path[:i])
 			fmt.Printf("%-40s err=%v\n", alphabet[rf.Replay.Path[i-1]], r.Err)
@@ -457,6 +472,7 @@ func main() {
 		depth, deep = 5, 8
 	}
 	acc := ev.NewAcc()
+	sizeSweep(acc, *tier)
 	var c cfg
 	for _, c = range []cfg{{Impls: fsh.ImplNames, Depth: depth, Validate: true}, {Impls: fsh.ImplNames, Depth: deep, Validate: true, Narrow: true}} {
 		cj, _ := json.Marshal(c)
@@ -496,9 +512,104 @@ func main() {
 	acc.Sample(map[string]any{"alphabet_size": len(alphabet), "example_ops": []string{alphabet[0].String(), alphabet[5].String(), alphabet[30].String(), alphabet[100].String()}, "depth_full_alphabet": depth, "depth_narrow_alphabet": deep, "impls": c.Impls}, 3)
 	os.Exit(acc.Done(ev.Finish{
 		Prop: "C12", Tier: *tier, Level: "model_checking", Start: start,
-		Rule:        "explicit-state BFS over valid histories of Create, Append, Close, Open, ReadAt (offsets 0,1,L-1,L,L+1 x lengths 0,1,L,L+1), Delete, Link, AtomicCreate, List on dirs {d1,d2}, names {f,g}, data {\"\",\"a\",\"bc\",5000 bytes}, 3 handle slots (full alphabet to the first depth bound; a reduced alphabet -- one data value, whole-file reads, no List -- to a deeper bound); an operation is enabled only when its documented precondition holds in the reference model; every history replayed on fresh real MemFs and DirFs (over simunix), directly and through the package-level wrappers; passed buffers and returned slices are overwritten by the caller after each call; after the last operation its result, every open read handle and a full read-back of both directories are compared with the reference model; the simunix trace of every history is replayed on the real kernel",
+		Rule:        "explicit-state BFS over valid histories of Create, Append, Close, Open, ReadAt (offsets 0,1,L-1,L,L+1 x lengths 0,1,L,L+1), Delete, Link, AtomicCreate, List on dirs {d1,d2}, names {f,g}, data {\"\",\"a\",\"bc\",5000 bytes}, 3 handle slots (full alphabet to the first depth bound; a reduced alphabet -- one data value, whole-file reads, no List -- to a deeper bound); an operation is enabled only when its documented precondition holds in the reference model; every history replayed on fresh real MemFs and DirFs (over simunix), directly and through the package-level wrappers; passed buffers and returned slices are overwritten by the caller after each call; after the last operation its result, every open read handle and a full read-back of both directories are compared with the reference model; the simunix trace of every history is replayed on the real kernel; plus a size sweep: files of every size on a grid around 4 KiB / 64 KiB (/ 1 MiB thorough), written whole, atomically or in pieces, read back at every grid offset x grid length",
 		Assumptions: []string{"simunix models the kernel for DirFs (validated per history by replay on the real kernel)", "state identity = reference-model state (names, link structure, contents, slots); merging is justified by the full read-back equality checked on every transition"},
 	}))
+}
+
+// sizeSweep: every (file size, way of writing it, read offset, read length) on a
+// grid around the sizes at which an implementation could change strategy (page,
+// 64 KiB, 1 MiB), on every implementation, against the byte-exact reference.
+func sizeSweep(acc *ev.Acc, tier string) {
+	pat := func(n int) []byte {
+		b := make([]byte, n)
+		for i := range b {
+			x := uint32(i) * 2654435761
+			b[i] = byte(x>>24) ^ byte(x>>13)
+		}
+		return b
+	}
+	marks := []int{0, 1, 4095, 4096, 4097, 65535, 65536, 65537, 131072, 200000}
+	if tier == "thorough" {
+		marks = append(marks, 1<<20-1, 1<<20, 1<<20+1, 3000000)
+	}
+	lens := []uint64{0, 1, 4096, 65535, 65536, 65537, 131073, 1 << 20, 1 << 22}
+	for _, name := range fsh.ImplNames {
+		for _, L := range marks {
+			for _, how := range []string{"atomic", "append-whole", "append-pieces"} {
+				im := fsh.New(name, false)
+				data := pat(L)
+				var perr string
+				perr = libh.Try(func() {
+					switch how {
+					case "atomic":
+						im.AtomicCreate("d1", "f", append([]byte(nil), data...))
+					case "append-whole":
+						f, _ := im.Create("d1", "f")
+						im.Append(f, append([]byte(nil), data...))
+						im.Close(f)
+					case "append-pieces":
+						f, _ := im.Create("d1", "f")
+						rest := data
+						for _, sz := range []int{1, 4095, 61440, 65537} {
+							if len(rest) == 0 {
+								break
+							}
+							if sz > len(rest) {
+								sz = len(rest)
+							}
+							im.Append(f, append([]byte(nil), rest[:sz]...))
+							rest = rest[sz:]
+						}
+						if len(rest) > 0 {
+							im.Append(f, append([]byte(nil), rest...))
+						}
+						im.Close(f)
+					}
+				})
+				key := fmt.Sprintf("C12/%s/size-sweep/%s/L=%d", name, how, L)
+				if perr != "" {
+					acc.Violate(ev.Violation{Key: key + "/write-panic", Msg: fmt.Sprintf("%s: writing a %d-byte file by %s panicked: %s", name, L, how, perr), Replay: map[string]any{"mode": "size-sweep", "impl": name, "L": L, "how": how}})
+					continue
+				}
+				var fd filesys.File
+				libh.Try(func() { fd = im.Open("d1", "f") })
+				offs := map[uint64]bool{}
+				for _, m := range marks {
+					offs[uint64(m)] = true
+				}
+				for _, d := range []int{-1, 0, 1} {
+					if L+d >= 0 {
+						offs[uint64(L+d)] = true
+					}
+				}
+				for off := range offs {
+					for _, ln := range lens {
+						var got []byte
+						p := libh.Try(func() { got = im.ReadAt(fd, off, ln) })
+						var want []byte
+						if off < uint64(L) {
+							end := off + ln
+							if end > uint64(L) {
+								end = uint64(L)
+							}
+							want = data[off:end]
+						}
+						acc.Add("transitions", 1)
+						acc.Add("size_sweep_reads", 1)
+						if p != "" || string(got) != string(want) {
+							first := 0
+							for first < len(got) && first < len(want) && got[first] == want[first] {
+								first++
+							}
+							acc.Violate(ev.Violation{Key: fmt.Sprintf("%s/ReadAt(%d,%d)", key, off, ln), Msg: fmt.Sprintf("%s: file of %d bytes written by %s: ReadAt(off=%d,len=%d) returned %d bytes (panic=%q), the reference has %d; first difference at byte %d of the result", name, L, how, off, ln, len(got), p, len(want), first), Replay: map[string]any{"mode": "size-sweep", "impl": name, "L": L, "how": how, "off": off, "len": ln}})
+						}
+					}
+				}
+				libh.Try(func() { im.Close(fd) })
+			}
+		}
+	}
 }
 
 func failKind(e string) string {
